@@ -750,7 +750,9 @@ Proof.
   destruct (get (cl_consumer cl) g) as [grp|] eqn:Hg; [|injection H as <- _; rewrite Hc, Hg; reflexivity].
   destruct (Z.eqb_spec t 0) as [|_]; [contradiction|].
   destruct (remove (g_topics grp) t) as [|x r] eqn:Er.
-  - injection H as <- _. rewrite get_set_eq. cbn [cl_consumer]. rewrite get_remove_eq. reflexivity.
+  - destruct (get (g_topics grp) t).
+    + injection H as <- _. rewrite get_set_eq. cbn [cl_consumer]. rewrite get_remove_eq. reflexivity.
+    + injection H as <- _. rewrite get_set_eq. cbn [cl_consumer]. rewrite get_set_eq. reflexivity.
   - injection H as <- _. rewrite get_set_eq. cbn [cl_consumer]. rewrite get_set_eq. cbn [g_topics].
     rewrite <- Er, get_remove_eq. reflexivity.
 Qed.
